@@ -444,7 +444,7 @@ class LinearLeastSquares(App):
             if self.G is None:
                 v = self.x.copy()
             else:
-                v = self.G(self.x)
+                v = self.G(self.x).copy()
 
             u = xp.zeros_like(v)
 
